@@ -99,6 +99,7 @@ def opOfJ (j : J) : Option Op := do
   | "imul" => do pure (.imul (← j.getInt? "k"))
   | "clear" => pure .clear
   | "reverse" => pure .reverse
+  | "sort" => pure .sort
   | "popitem" => pure .popitem
   | _ => none
 
